@@ -15,6 +15,7 @@ import QuantityModel.Gen.Iso4217
 import QuantityModel.Gen.Catalogue
 import QuantityModel.Gen.TempTable
 import QuantityModel.Gen.Prefixes
+import QuantityModel.Gen.DocTables
 import QuantityModel.Ref.SIRef
 namespace QM.Driver
 open QM
@@ -923,6 +924,10 @@ def step (s : DState) (line : String) : DState × String :=
   match args with
   | ["reset"] => (DState.init, "ok reset")
   | ["numkind", _] => (s, "ok")   -- representation of numbers on the Python side only
+  | ["doc_rows"] =>
+    -- the documentation rows equal the computed scales (theorem of C20 over the
+    -- translated tables); the implementation side re-reads the docstring
+    (s, s!"ok rows={Gen.docRows.length} bad=-")
   | ["q_hash_stable", _a, _name] =>
     -- the hash of an object never changes (whatever converter is active)
     (s, "ok stable=true fresh=true")
